@@ -10,7 +10,7 @@
     [fits_msg marshal m] = the marshalled body is shorter than 2^56 bytes (what the writer's
     8-byte varint buffer can announce; beyond it Go panics, [write_message_panics]). *)
 From Wharf Require Import Base.Prelude Wire.Uvarint Wire.UvarintProofs Wire.Frame Wire.FrameProofs
-  Wire.Reader Wire.ReaderProofs Wire.SourceEOF Wire.SourceEOFProofs.
+  Wire.Reader Wire.ReaderProofs Wire.SourceEOF Wire.SourceEOFProofs Wire.Rewind Wire.RewindProofs.
 Local Open Scope N_scope.
 
 (** Go's PutUvarint / ReadUvarint round trip for every 64-bit value, whatever follows. *)
@@ -77,6 +77,51 @@ Theorem checkpoint_resumes_exactly :
                    read_all unmarshal beh2 r' = (skipn k msgs, EEOF).
 Proof. exact @checkpoint_resumes_exactly_lemma. Qed.
 Print Assumptions checkpoint_resumes_exactly.
+
+(** The same for a reader that is used again: a run may call [Resume] on the reader itself -
+    with a checkpoint it popped earlier in the run (a rewind, or a jump forward after one) or
+    with nil (start over) - at any point, in any save state: idle, a request pending, a
+    source checkpoint held that nobody has popped.  [behs i] is the behaviour of the source
+    during the i-th operation (a source may or may not keep an unanswered request across its
+    own Resume, and answers a kept one during the read that discards the bytes up to the
+    checkpoint's offset).  Every checkpoint popped - before or after such calls - was
+    popped at a position [k = pos_at tr i] that the events alone determine (a read moves one
+    message forward, a Resume goes to where its checkpoint was popped), and handed to any
+    reader over the same bytes it resumes so that exactly the messages from [k] on are read,
+    then end of stream. *)
+Theorem used_reader_checkpoints_resume_exactly :
+  forall (M : Type) (marshal : M -> list byte) (unmarshal : list byte -> option M),
+    (forall m, unmarshal (marshal m) = Some m) ->
+  forall (msgs : list M), Forall (fits_msg marshal) msgs ->
+  forall (behs : nat -> behaviour), (forall i, beh_sound (behs i)) ->
+  forall (cap0 : N) (ops : list xop),
+    let tr := xrun unmarshal behs [] (new_reader cap0 (stream marshal msgs)) ops in
+    forall i c ri, nth_error tr i = Some (XE (EvPop (Some c)), ri) ->
+      let k := pos_at tr i in
+      (k <= length msgs)%nat /\
+      forall (r0 : reader) (beh2 : behaviour),
+        s_data (r_src r0) = stream marshal msgs -> beh_sound beh2 ->
+        exists r', resume r0 (Some c) = Some r' /\
+                   read_all unmarshal beh2 r' = (skipn k msgs, EEOF).
+Proof. exact @used_reader_checkpoints_lemma. Qed.
+Print Assumptions used_reader_checkpoints_resume_exactly.
+
+(** ... and every read of such a run returns the message at the reader's position, or end of
+    stream exactly when the position is the end. *)
+Theorem used_reader_reads_in_order :
+  forall (M : Type) (marshal : M -> list byte) (unmarshal : list byte -> option M),
+    (forall m, unmarshal (marshal m) = Some m) ->
+  forall (msgs : list M), Forall (fits_msg marshal) msgs ->
+  forall (behs : nat -> behaviour), (forall i, beh_sound (behs i)) ->
+  forall (cap0 : N) (ops : list xop),
+    let tr := xrun unmarshal behs [] (new_reader cap0 (stream marshal msgs)) ops in
+    forall i res ri, nth_error tr i = Some (XE (EvRead res), ri) ->
+      match res with
+      | ReadOk m => nth_error msgs (pos_at tr i) = Some m
+      | ReadErr e => pos_at tr i = length msgs /\ e = EEOF
+      end.
+Proof. exact @used_reader_reads_lemma. Qed.
+Print Assumptions used_reader_reads_in_order.
 
 (** Save protocol (1): PopCheckpoint returns a checkpoint only in the "has source checkpoint"
     state, goes back to idle, and the checkpoint carries the reader's current offset. *)
@@ -209,3 +254,22 @@ Theorem uvarint_decoders_differ_on_overflow :
    Codec.get_uvarint (repeat 128%N 9 ++ [2%N]) 0 0 = Some ((2 ^ 64)%N, [])).
 Proof. exact ModelsAgreeVarintProofs.uvarint_decoders_differ_on_overflow_lemma. Qed.
 Print Assumptions uvarint_decoders_differ_on_overflow.
+(** A reader resumed while in use: a save in flight (operation 5 leaves a source checkpoint
+    for offset 4) is forgotten by the rewind to offset 3 (operation 6; the next pop gives
+    nothing), and a request still pending at the second rewind (operation 10) is answered by
+    the seek source while the 3 bytes before the checkpoint are discarded - the reader comes
+    out of [Resume] holding a source checkpoint for offset 0, which pops as a good checkpoint. *)
+Example used_reader_example :
+  let msgs := [[1; 2]; []; [3]] in
+  let tr := xrun (fun x => Some x) (fun _ => seek_beh) [] (new_reader 32768 (stream (fun x => x) msgs))
+                 [XO OWant; XO ORead; XO OPop; XO ORead; XO OWant; XO ORead; XZ (Some 2%nat);
+                  XO OPop; XO ORead; XO OWant; XZ (Some 2%nat); XO OPop; XO ORead] in
+  map fst tr =
+    [XE (EvWant true); XE (EvRead (ReadOk [1; 2])); XE (EvPop (Some (mk_mc 3 (Some (mk_sc 0 0)))));
+     XE (EvRead (ReadOk [])); XE (EvWant true); XE (EvRead (ReadOk [3])); XRes (Some 2%nat) true;
+     XE (EvPop None); XE (EvRead (ReadOk [])); XE (EvWant true); XRes (Some 2%nat) true;
+     XE (EvPop (Some (mk_mc 3 (Some (mk_sc 0 0))))); XE (EvRead (ReadOk []))] /\
+  map (fun x => r_save (snd x)) tr =
+    [Waiting; HasSrc; Idle; Idle; Waiting; HasSrc; Idle; Idle; Idle; Waiting; HasSrc; Idle; Idle] /\
+  snd (xpos tr) = [0; 0; 1; 1; 2; 2; 3; 1; 1; 2; 2; 1; 1]%nat.
+Proof. vm_compute. repeat split; reflexivity. Qed.
